@@ -95,7 +95,7 @@ Qed.
 (** * what [unify] computes, in terms of the table *)
 Definition echo_val (c : config) (k : kwargs) : oval :=
   if is_True (want c k Dry) then OBool true
-  else if is_True (want c k Hide) then OBool false else want c k Echo.
+  else if hide_full (want c k Hide) then OBool false else want c k Echo.
 
 Definition hidden_list (c : config) (k : kwargs) : list string :=
   match hidden c k with Some l => l | None => [] end.
@@ -133,10 +133,11 @@ Qed.
 Lemma err_eqb_refl e : err_eqb e e = true.
 Proof. destruct e; reflexivity. Qed.
 
-Lemma echo_val_on c k : truthy (echo_val c k) = echo_on_r false c k.
+Lemma echo_val_on c k : truthy (echo_val c k) = echo_on_r true c k.
 Proof.
-  unfold echo_val, echo_on_r. destruct (is_True (want c k Dry)); [reflexivity|].
-  destruct (is_True (want c k Hide)); reflexivity.
+  unfold echo_val, echo_on_r, hide_full, fully_hidden. destruct (is_True (want c k Dry)); [reflexivity|].
+  destruct (want c k Hide) as [| [|] | s | | | |]; try reflexivity.
+  destruct (String.eqb s "both"); reflexivity.
 Qed.
 
 Lemma start_ok_model c parent command k :
@@ -155,7 +156,7 @@ Proof. destruct o; cbn [resolved_of r_opts]; rewrite ?pick_want; reflexivity. Qe
 
 (** * the flagship of part A *)
 Theorem run_meets_spec c parent command k :
-  spec_ok_opts_r false c parent command k (run_model c parent command k) = true.
+  spec_ok_opts_r true c parent command k (run_model c parent command k) = true.
 Proof.
   unfold spec_ok_opts_r, run_model. rewrite unify_spec.
   destruct (rejected c k) as [e|] eqn:RJ.
@@ -231,7 +232,7 @@ Theorem interactions c parent command k :
   rejected c k = None ->
   let out := run_model c parent command k in
   (* full hiding suppresses echo (dry-run apart) *)
-  (is_True (want c k Hide) = true -> is_True (want c k Dry) = false -> o_echo out = None) /\
+  (fully_hidden (want c k Hide) = true -> is_True (want c k Dry) = false -> o_echo out = None) /\
   (* dry-run forces echo and starts no process *)
   (is_True (want c k Dry) = true ->
    o_started out = None /\ o_echo out = Some (fill (want c k EchoFormat) command)) /\
@@ -337,53 +338,20 @@ Proof.
       (truthy (want c k Warn)); reflexivity.
 Qed.
 
-(** * the strict reading of "full hiding suppresses echo" (F-C15c) *)
-Lemma spec_readings c parent command k obs :
-  echo_readings_agree c k = true ->
-  spec_ok_opts_r true c parent command k obs = spec_ok_opts_r false c parent command k obs.
-Proof.
-  unfold echo_readings_agree. intros H. apply eqb_prop in H.
-  unfold spec_ok_opts_r. rewrite H. reflexivity.
-Qed.
+(** * Historical: before fix f03a111 only [hide is True] switched echo off (F-C15c) *)
+Definition echo_val_before_fix (c : config) (k : kwargs) : oval :=
+  if is_True (want c k Dry) then OBool true
+  else if is_True (want c k Hide) then OBool false else want c k Echo.
 
-Theorem run_meets_spec_strict c parent command k :
-  echo_readings_agree c k = true ->
-  spec_ok_opts c parent command k (run_model c parent command k) = true.
-Proof. intros H. unfold spec_ok_opts. rewrite spec_readings by assumption. apply run_meets_spec. Qed.
-
-(** the readings differ exactly for hide='both' with echo asked for and no dry-run *)
-Lemma readings_agree_iff c k :
-  echo_readings_agree c k = false <->
-  (is_True (want c k Dry) = false /\ want c k Hide = OStr "both" /\ truthy (want c k Echo) = true).
-Proof.
-  unfold echo_readings_agree, echo_on_r, fully_hidden.
-  destruct (is_True (want c k Dry)); [split; [discriminate | intros [H _]; discriminate]|].
-  destruct (want c k Hide) as [| [|] | s | | | |]; cbn [is_True];
-    try (split; [try discriminate; destruct (truthy (want c k Echo)); discriminate
-                | intros (_ & H & _); discriminate]).
-  destruct (String.eqb s "both") eqn:E.
-  - apply String.eqb_eq in E. subst s. destruct (truthy (want c k Echo)); split;
-      try discriminate; try (intros (_ & _ & H); discriminate); auto.
-  - split; [destruct (truthy (want c k Echo)); discriminate|].
-    intros (_ & H & _). injection H as ->. discriminate.
-Qed.
-
-Theorem hide_both_echo_refuted :
+Theorem hide_both_echo_before_fix_refuted :
   exists c parent command k,
     rejected c k = None /\ want c k Hide = OStr "both" /\
-    (* both streams are hidden ... *)
-    (exists r, o_res (run_model c parent command k) = Some r /\ r_opts r Hide = OList ["stdout"; "stderr"]) /\
-    (* ... yet the command is echoed *)
-    o_echo (run_model c parent command k) = Some ("RUN ls" ++ String (ascii_of_nat 10) "")%string /\
-    spec_ok_opts c parent command k (run_model c parent command k) = false /\
-    (* while hide=True is silent *)
-    o_echo (run_model c parent command
-                      (mkKw (fun o => match o with Hide => Some (OBool true) | Echo => Some (OBool true)
-                                              | _ => None end) None [])) = None.
+    truthy (echo_val_before_fix c k) = true /\      (* echoed then, both streams hidden *)
+    echo_on c k = false /\                          (* must not be *)
+    o_echo (run_model c parent command k) = None.   (* and is not any more *)
 Proof.
-  exists (mkCfg (fun o => match o with EchoFormat => Some (OStr "RUN {command}") | _ => None end) ONone),
-         [], "ls"%string,
+  exists (mkCfg (fun _ => None) ONone), [], "ls"%string,
          (mkKw (fun o => match o with Hide => Some (OStr "both") | Echo => Some (OBool true) | _ => None end)
                None []).
-  vm_compute. repeat split; try reflexivity. eexists. split; reflexivity.
+  vm_compute. repeat split; reflexivity.
 Qed.
